@@ -21,6 +21,7 @@ import hashlib
 import math
 import warnings
 
+from .. import layout as LY
 from ..oracles import c08_bounds as B
 from ..oracles import c08_warp as W
 from . import _c08_live as _live
@@ -756,6 +757,7 @@ def execute(case, mon):
     taps = _Taps(mon, script if script["kind"] != "native" else dict(script, seq=["uniform"]))
     sa = Mo.SpecAugment(*_cfg_args(cfg), interpolation_order=order)
     sa.train()
+    sa = LY.travelled(sa, N, T, F)
     if N > 1 and (N + T + F) % 2 == 0:
         # a history of calls on ONE module object: first a smaller batch (other N and T), result discarded
         with torch.random.fork_rng():
